@@ -35,9 +35,9 @@ def upow(a, e):
     ex = core.cur()
     az = core.to_z3(a, like=_z3.RealSort())
     ez = core.to_z3(e, like=_z3.RealSort())
-    t = _POW(az, ez)
     key = ("upow", az.get_id(), ez.get_id())
     if key not in ex.memo:
+        t = ex.fresh_real('pow')
         ex.memo[key] = t
         ex.assume(_z3.Implies(_z3.And(az > 0, az < 1, ez > 0, ez <= 1), _z3.And(t >= az, t < 1)), axiom=True)
         ex.assume(_z3.Implies(_z3.And(az > 0, ez > 0), t > 0), axiom=True)
@@ -46,10 +46,10 @@ def upow(a, e):
         for (k, v) in list(ex.memo.items()):
             if k and k[0] == "upow_args" and k[2] == ez.get_id() and k[1] != az.get_id():
                 oa = v
-                ot = _POW(oa, ez)
+                ot = ex.memo[("upow", oa.get_id(), ez.get_id())]
                 ex.assume(_z3.Implies(_z3.And(oa > 0, az > 0, ez > 0), _z3.And(_z3.Implies(oa < az, ot < t), _z3.Implies(oa > az, ot > t), _z3.Implies(oa == az, ot == t))), axiom=True)
         ex.memo[("upow_args", az.get_id(), ez.get_id())] = az
-    return t
+    return ex.memo[key]
 
 
 def sqrt(x):
